@@ -853,6 +853,30 @@ func c15CaseWrite(r *vfRand, bnd []c15Cand, combo int) c15Case {
 	ctx, cancel := context.WithTimeout(context.Background(), c15Timeout)
 	defer cancel()
 	var opErr error
+	if op == "provide" && r.Chance(50) {
+		// Provide without announcing: nothing goes on the wire, the record is kept by the provider store of the
+		// inner DHT the call was routed to - the WAN one exactly when its routing table is non-empty
+		h, _ := mh.Sum([]byte(fmt.Sprint("c15 local cid ", r.Uint64())), mh.SHA2_256, -1)
+		opErr = n.d.Provide(ctx, cid.NewCidV1(cid.Raw, h), false)
+		holds := func(d *dht.IpfsDHT) bool {
+			ps, err := d.ProviderStore().GetProviders(ctx, h)
+			if err != nil {
+				return false
+			}
+			for _, p := range ps {
+				if p.ID == d.PeerID() {
+					return true
+				}
+			}
+			return false
+		}
+		inWan, inLan := holds(n.d.WAN), holds(n.d.LAN)
+		wc, lc := n.wan.snapshot(), n.lan.snapshot()
+		term := fmt.Sprintf("CProvideLocal %d %d %s %s %s %s", wanN, lanN, vfBool(inWan), vfBool(inLan), vfBool(opErr == nil), vfBool(len(wc)+len(lc) > 0))
+		return c15Case{coq: term, sig: fmt.Sprintf("provide-local|w=%v|l=%v|inwan=%v|inlan=%v", wanN > 0, lanN > 0, inWan, inLan),
+			desc: map[string]any{"kind": "provide-without-announce", "wan_seeds": wanN, "lan_seeds": lanN, "recorded_in_wan": inWan,
+				"recorded_in_lan": inLan, "err": fmt.Sprint(opErr), "requests_sent": len(wc) + len(lc)}}
+	}
 	if op == "provide" {
 		h, _ := mh.Sum([]byte(fmt.Sprint("c15 cid ", r.Uint64())), mh.SHA2_256, -1)
 		opErr = n.d.Provide(ctx, cid.NewCidV1(cid.Raw, h), true)
